@@ -710,9 +710,28 @@ class ExprMixin2:
 
     def ev_List(self, e, st):
         out = []
-        for s, vs in self.ev_list(e.elts, st):
+        star = [isinstance(x, ast.Starred) for x in e.elts]
+        for s, vs in self.ev_list([x.value if isinstance(x, ast.Starred) else x for x in e.elts], st):
             if s.status != "run":
                 out.append((s, None))
+                continue
+            if any(star):
+                # [*xs, y]: the unpacked operands contribute their items (lists / tuples / sequence values only)
+                parts = []
+                for v, is_star in zip(vs, star):
+                    if is_star:
+                        node_list = v.k == "val" and v.t is not None and z3.is_select(v.t) and \
+                            str(v.t.arg(0)).rsplit(".", 1)[-1].split("!")[0] in ("elts", "keys", "values", "body", "args", "keywords", "names", "targets")
+                        if node_list:            # a child list of an AST node (ghost invariant of the heap model: such fields hold list objects)
+                            parts.append(s.items(Val.r(v.t)))
+                            continue
+                        if not (v.k in ("seq", "tuple") or (v.k in ("ref", "val") and v.cls in ("list", "tuple"))):
+                            raise Unsupported(f"{self.where(e)}: unpacking of {v!r} in a list display")
+                        parts.append(self.as_seq(v, s))
+                    else:
+                        parts.append(z3.Unit(box(self.materialize(v, s))))
+                seq = z3.Concat(*parts) if len(parts) > 1 else parts[0]
+                out.append((s, V("seq", seq) if self.spec_mode else vref(s.new_list(seq), cls="list")))
                 continue
             items = [box(self.materialize(v, s)) for v in vs]
             seq = z3.Concat(*[z3.Unit(i) for i in items]) if len(items) > 1 else (z3.Unit(items[0]) if items else z3.Empty(SeqV))
